@@ -296,6 +296,12 @@ func (in *Inst) load(addr *Term, typ types.Type, g *Term, instr ssa.Instruction,
 		// pointer value used directly: *p
 		root, path = addr, nil
 	}
+	if root.K == KSym {
+		if al, ok := in.X.objAlias[root.Sym]; ok {
+			args := append(append([]*Term{}, al.Args...), path...)
+			return in.load(S.mkOp("addr", TRef, args...), typ, g, instr, b)
+		}
+	}
 	tc := tyClass(typ)
 	if tc == TRef || isAggregate(typ) {
 		// reference or aggregate stored at a location: flatten into the access path
@@ -384,6 +390,10 @@ func (in *Inst) store(t *ssa.Store, g *Term, b *ssa.BasicBlock) {
 	root, path, ok := addrParts(addr)
 	if !ok {
 		root, path = addr, nil
+	}
+	if al, isAl := t.Addr.(*ssa.Alloc); isAl && val.Op == "at" && singleInitStruct(al) && root.K == KSym {
+		// a local struct initialised once by copying a whole value: reads of its fields read the source location
+		in.X.objAlias[root.Sym] = val
 	}
 	in.emit(&Event{Kind: "store", Guard: g, Instr: t, Root: root, Path: path, Val: val})
 }
@@ -670,4 +680,41 @@ func (in *Inst) cellsStoredByClosure(clo *Term) []*Symbol {
 	}
 	scan(fn, free, 0)
 	return out
+}
+
+// singleInitStruct: a struct-typed local whose only write is one whole-value store and whose fields are only read.
+func singleInitStruct(a *ssa.Alloc) bool {
+	if _, ok := deref(a.Type()).Underlying().(*types.Struct); !ok {
+		return false
+	}
+	refs := a.Referrers()
+	if refs == nil {
+		return false
+	}
+	stores := 0
+	for _, r := range *refs {
+		switch r := r.(type) {
+		case *ssa.Store:
+			if r.Addr != a {
+				return false
+			}
+			stores++
+		case *ssa.FieldAddr:
+			if rr := r.Referrers(); rr != nil {
+				for _, u := range *rr {
+					switch u := u.(type) {
+					case *ssa.UnOp:
+					case *ssa.IndexAddr:
+						_ = u
+					default:
+						return false
+					}
+				}
+			}
+		case *ssa.DebugRef:
+		default:
+			return false
+		}
+	}
+	return stores == 1
 }
